@@ -11,14 +11,15 @@ package main
 import "strings"
 
 type preinst struct {
-	pairs bool // also instantiate two-variable quantifiers (second attempt)
-	hints []*Term
-	ints  []*Term
-	strs  map[string][]*Term // sf.name -> ground Str arguments (by position 0..)
-	apps  map[string][][]*Term
-	out   []*Term
-	limit int
-	seen  map[string]bool
+	pairs     bool // also instantiate two-variable quantifiers (second attempt)
+	pairsOnly bool
+	hints     []*Term
+	ints      []*Term
+	strs      map[string][]*Term // sf.name -> ground Str arguments (by position 0..)
+	apps      map[string][][]*Term
+	out       []*Term
+	limit     int
+	seen      map[string]bool
 }
 
 func collectCandidates(all []*Term, focus []*Term) *preinst {
@@ -201,8 +202,12 @@ func (p *preinst) walk(ctx []*Term, t *Term, depth int) {
 		case SInt:
 			for _, c := range p.ints {
 				inst := t.Args[0].Subst(map[string]*Term{b.Name: c})
-				p.emit(ctx, stripQuant(inst))
-				p.walk(ctx, inst, depth+1)
+				if !p.pairsOnly {
+					p.emit(ctx, stripQuant(inst))
+				}
+				if !p.pairsOnly || hasTwoVarForall(inst) {
+					p.walk(ctx, inst, depth+1)
+				}
 			}
 		default:
 			// instantiate with arguments of ground applications the variable is passed to
@@ -334,10 +339,23 @@ func preInstantiate(D *Decls, asserts []*Term, focus []*Term, withPairs bool, hi
 	p.ints = append(p.ints, succ...)
 	p.out = append(p.out, wit...)
 	p.engineInstances(all) // first: these must not fall victim to the instance limit
+	// one-variable instances first; pair instances (many) afterwards so that
+	// they cannot crowd the former out of the instance budget
+	p.pairs = false
 	for _, a := range asserts {
 		if hasQuantStrict(a) {
 			p.walk(nil, a, 0)
 		}
+	}
+	if withPairs {
+		p.pairs, p.pairsOnly = true, true
+		p.limit += 2500
+		for _, a := range asserts {
+			if hasQuantStrict(a) {
+				p.walk(nil, a, 0)
+			}
+		}
+		p.pairsOnly = false
 	}
 	p.engineInstances(append(append([]*Term{}, all...), p.out...))
 	// second round: index expressions that only appear in the instances just
@@ -439,4 +457,14 @@ func (p *preinst) engineInstances(all []*Term) {
 			}
 		})
 	}
+}
+
+func hasTwoVarForall(t *Term) bool {
+	found := false
+	t.Walk(func(x *Term) {
+		if !x.IsSym && x.Op == "forall" && len(x.Bound) == 2 {
+			found = true
+		}
+	})
+	return found
 }
